@@ -225,16 +225,110 @@ arguments; a change of the C++ function changes the generated definition and the
 namespace SockModel.Props.C06
 open SockModel SockModel.Deadline SockModel.ToDos
 
-/-- `ToDos::Insert` is `emplace(find_if(begin(), end(), WhenBefore{todo->when}), todo)` -/
-theorem tie_insert_whenBefore (l : List Entry) (e : Entry) :
-    ToDos.insert l e =
-      l.takeWhile (fun x => !Gen.WhenBefore_call e.when x.when) ++
-        e :: l.dropWhile (fun x => !Gen.WhenBefore_call e.when x.when) := by
+/-- the list of `when` values the generated search runs over -/
+def whens (l : List Entry) : List Int := l.map (·.when)
+
+/-- forward search (`std::find_if`) with a predicate that is `when < x`: the model's `insert`, on any list -/
+theorem insert_findIf (p : Int → Bool) (l : List Entry) (e : Entry) (hp : ∀ x, p x = decide (e.when < x)) :
+    ToDos.insert l e = l.take (Gen.findIfIdx p (whens l)) ++ e :: l.drop (Gen.findIfIdx p (whens l)) := by
   induction l with
   | nil => rfl
   | cons x xs ih =>
-    simp only [ToDos.insert, List.takeWhile_cons, List.dropWhile_cons, Gen.WhenBefore_call]
-    by_cases h : e.when < x.when <;> simp [h, ih, Gen.WhenBefore_call]
+    simp only [whens, List.map_cons, Gen.findIfIdx, ToDos.insert, hp] at ih ⊢
+    by_cases h : e.when < x.when
+    · simp [h]
+    · simp only [h, decide_false, if_false, Bool.false_eq_true, List.take_succ_cons, List.drop_succ_cons, List.cons_append]
+      rw [ih]
+
+/-- `k` is a position at which `e` may go: nothing in front of it is later than `e`, everything from it on is -/
+def IsPos (l : List Entry) (w : Int) (k : Nat) : Prop :=
+  k ≤ l.length ∧ (∀ i, i < k → ¬ w < (whens l).getD i 0) ∧ (∀ i, k ≤ i → i < l.length → w < (whens l).getD i 0)
+
+theorem insert_isPos (l : List Entry) (e : Entry) : ∀ k, IsPos l e.when k → ToDos.insert l e = l.take k ++ e :: l.drop k := by
+  induction l with
+  | nil =>
+    intro k ⟨h1, _, _⟩
+    have : k = 0 := by simpa using h1
+    subst this; rfl
+  | cons x xs ih =>
+    intro k ⟨h1, h2, h3⟩
+    cases k with
+    | zero =>
+      have := h3 0 (Nat.le_refl _) (by simp)
+      simp only [whens, List.map_cons, List.getD_cons_zero] at this
+      simp [ToDos.insert, this]
+    | succ k =>
+      have hx := h2 0 (Nat.succ_pos _)
+      simp only [whens, List.map_cons, List.getD_cons_zero] at hx
+      have hk : IsPos xs e.when k := by
+        refine ⟨by simpa using h1, fun i hi => ?_, fun i hi hl => ?_⟩
+        · have := h2 (i + 1) (by omega)
+          simpa [whens] using this
+        · have := h3 (i + 1) (by omega) (by simp; omega)
+          simpa [whens] using this
+      simp only [ToDos.insert, hx, if_false, List.take_succ_cons, List.drop_succ_cons, List.cons_append]
+      rw [ih k hk]
+
+theorem sorted_getD {l : List Entry} (hs : Sorted l) (i j : Nat) (hij : i ≤ j) (hj : j < l.length) :
+    (whens l).getD i 0 ≤ (whens l).getD j 0 := by
+  induction l generalizing i j with
+  | nil => simp at hj
+  | cons x xs ih =>
+    have hs' := List.pairwise_cons.mp hs
+    cases j with
+    | zero =>
+      have : i = 0 := by omega
+      subst this; exact Int.le_refl _
+    | succ j =>
+      cases i with
+      | zero =>
+        simp only [whens, List.map_cons, List.getD_cons_zero, List.getD_cons_succ]
+        have hj' : j < xs.length := by simpa using hj
+        have hm : xs[j] ∈ xs := List.getElem_mem hj'
+        have := hs'.1 _ hm
+        simpa [List.getD_eq_getElem?_getD, hj'] using this
+      | succ i =>
+        have := ih hs'.2 i j (by omega) (by simpa using hj)
+        simpa [whens] using this
+
+/-- backward search from position `n`, on a sorted list whose elements from `n` on are all later than `e` -/
+theorem backScan_isPos (p : Int → Bool) (l : List Entry) (w : Int) (hp : ∀ x, p x = decide (w < x)) (hs : Sorted l) :
+    ∀ n, n ≤ l.length → (∀ i, n ≤ i → i < l.length → w < (whens l).getD i 0) →
+      IsPos l w (Gen.backScanIdx p (whens l) n) := by
+  intro n
+  induction n with
+  | zero =>
+    intro _ h
+    exact ⟨Nat.zero_le _, fun i hi => absurd hi (Nat.not_lt_zero _), fun i _ hl => h i (Nat.zero_le _) hl⟩
+  | succ n ih =>
+    intro hn h
+    simp only [Gen.backScanIdx, hp]
+    by_cases hc : w < (whens l).getD n 0
+    · simp only [hc, decide_true, if_true]
+      refine ih (by omega) (fun i hi hl => ?_)
+      by_cases hin : i = n
+      · subst hin; exact hc
+      · exact h i (by omega) hl
+    · simp only [hc, decide_false, if_false, Bool.false_eq_true]
+      refine ⟨hn, fun i hi => ?_, h⟩
+      have := sorted_getD hs i n (by omega) (by omega)
+      omega
+
+/-- `ToDos::Insert`: the new element goes where the CURRENT source's search (`Gen.Todos_Insert_pos`: forward `find_if`, or a
+backward scan from `end()`) stops.  The list is sorted whenever `Insert` runs (`sorted_nodup`); the forward search does not
+need that, the backward one does.  The proof does not depend on how the source spells the comparison. -/
+theorem tie_insert_whenBefore (l : List Entry) (e : Entry) (hs : Sorted l) :
+    ToDos.insert l e =
+      l.take (Gen.Todos_Insert_pos (whens l) e.when) ++ e :: l.drop (Gen.Todos_Insert_pos (whens l) e.when) := by
+  have hp : ∀ w x : Int, (decide (w < x)) = decide (w < x) := fun _ _ => rfl
+  unfold Gen.Todos_Insert_pos
+  first
+    | exact insert_findIf _ l e (fun x => by tie_bool_arith)
+    | (refine insert_isPos l e _ ?_
+       have hl : (whens l).length = l.length := by simp [whens]
+       rw [hl]
+       exact backScan_isPos _ l e.when (fun x => by tie_bool_arith) hs l.length (Nat.le_refl _)
+         (fun i hi hl => absurd hl (by omega)))
 
 theorem tie_stepTodos_due (fuel : Nat) (d : Deadline) (s : St) (front : Entry) (rest : List Entry)
     (h : s.todos = front :: rest) :
